@@ -206,7 +206,7 @@ PROPS = {
         "assumptions": ["the decision structure of runNonInteractive has the canonical shape the extractor recognises (else: broken tie)"],
     },
     "C06": {
-        "gens": [],
+        "gens": ["EqualFlow"],
         "lean": "Anko.Props.C06",
         "streams": [{"name": "eq", "n_quick": 3000, "n_thorough": 3000}],
         "trusted": ["FOps instance of the driver = Lean Float = IEEE binary64 = Go float64",
